@@ -10,6 +10,24 @@ OPS_REL = 'formulas/functions/operators.py'
 WRAPPERS = ('wrap_impure_func', 'wrap_func', 'wrap_ufunc', 'wrap_ranges_func')
 
 
+TRANSPARENT_DECORATORS = ('functools.lru_cache', 'functools.cache',
+                          'functools.wraps')
+
+
+def undecorate(av):
+    """FuncV behind value-preserving decorators (`lru_cache(...)(f)`, `cache(f)`)."""
+    while isinstance(av, CallV) and len(av.args) == 1 and not av.kw and \
+            isinstance(av.args[0], (FuncV, CallV)):
+        fn = av.fn
+        if isinstance(fn, CallV):
+            fn = fn.fn
+        if isinstance(fn, Ext) and fn.name in TRANSPARENT_DECORATORS:
+            av = av.args[0]
+        else:
+            break
+    return av
+
+
 class Core:
     """The innermost callable of a registration."""
 
@@ -30,6 +48,7 @@ class Core:
             kw.update(self.bound_kw)
             self.bound_kw = kw
             cur = cur.args[0]
+        cur = undecorate(cur)
         self.target = cur
         if isinstance(cur, FuncV):
             self.kind, self.fi = 'func', cur.fi
